@@ -438,9 +438,27 @@ func (mpt *MerklePatriciaTrie) delete(key Key, prefix, path Path) (Node, Key, er
 		return nil, nil, err
 	}
 	if len(path) == 0 {
-		return mpt.deleteAfterPathTraversal(node)
+		return mpt.deleteAtPathEnd(node)
 	}
 	return mpt.deleteAtNode(key, node, prefix, path)
+}
+
+// deleteAtPathEnd removes the value stored exactly at the node reached once the
+// path is exhausted; a node that merely lies below that point holds no value for it.
+func (mpt *MerklePatriciaTrie) deleteAtPathEnd(node Node) (Node, Key, error) {
+	switch nodeImpl := node.(type) {
+	case *LeafNode:
+		if len(nodeImpl.Path) != 0 {
+			return nil, nil, ErrValueNotPresent
+		}
+	case *FullNode:
+		if !nodeImpl.HasValue() {
+			return nil, nil, ErrValueNotPresent
+		}
+	case *ExtensionNode:
+		return nil, nil, ErrValueNotPresent
+	}
+	return mpt.deleteAfterPathTraversal(node)
 }
 
 func (mpt *MerklePatriciaTrie) insertAtNode(value MPTSerializable, node Node, prefix, path Path) (Node, Key, error) {
